@@ -14,7 +14,7 @@ def run(rep, tier, seed):
     avail = set(default_binds()["commands"])
     kills = [n for n in p_c06.spec_class("Kill") if n in avail]
     yanks = [n for n in p_c06.spec_class("Yank") if n in avail]
-    binds, seqs = private_binds(kills + yanks)
+    binds, seqs = private_binds(kills + yanks + ["exchange-point-and-mark"])
     maxlen = 3 if tier == "quick" else 4
     bufs = class_buffers(maxlen, classes="wdbpqkKWn") + CURATED
     states = p_c06.states(bufs, rng)
@@ -50,6 +50,10 @@ def run(rep, tier, seed):
                     mark = rng.randint(0, len(b)) if name in ("kill-region",) or rng.random() < 0.2 else -1
                     cs["setups"].append(setup(b, c, m, mark=mark))
                     sess.append(SETUP_KEY)
+                    if name == "kill-region" and mark >= 0:
+                        # the region this library kills is an ACTIVE selection: exchanging point and mark makes the text
+                        # between them one (without it kill-region has nothing to remove and the experiment is vacuous)
+                        sess.append(keys(seqs["exchange-point-and-mark"]))
                     sess.extend(ak)
                     sess.append(keys(seqs[name]))
                     r = rng.random()
